@@ -8,24 +8,25 @@ variable {K : Type} [Field K] [LinearOrder K] [IsStrictOrderedRing K]
 set_option linter.unusedSectionVars false
 
 /-- what `insert data fuel · i` has to satisfy on a well-formed child `c` with routed list `l` -/
-def InsSpec (data : Nat → K × K) (i : Nat) (ins : Tree K → Option (Tree K × Bool)) (c : Tree K) (l : List Nat) : Prop :=
+def InsSpec (data : Nat → K × K) (i : Nat) (ins : Tree K → Option (Tree K × Bool)) (c : Tree K)
+    (l : List (K × K)) : Prop :=
   ∀ r, ins c = some r →
     (c.cell.containsPoint (data i) = false → r = (c, false)) ∧
-    (c.cell.containsPoint (data i) = true → r.2 = true ∧ WF data r.1 (l ++ [i]) ∧ r.1.cell = c.cell)
+    (c.cell.containsPoint (data i) = true → r.2 = true ∧ WF data r.1 (l ++ [data i]) ∧ r.1.cell = c.cell)
 
 theorem tryChildren_spec (data : Nat → K × K) (i : Nat) (ins : Tree K → Option (Tree K × Bool))
-    (nw ne sw se : Tree K) (l1 l2 l3 l4 : List Nat)
+    (nw ne sw se : Tree K) (l1 l2 l3 l4 : List (K × K))
     (w1 : WF data nw l1) (w2 : WF data ne l2) (w3 : WF data sw l3) (w4 : WF data se l4)
     (s1 : InsSpec data i ins nw l1) (s2 : InsSpec data i ins ne l2)
     (s3 : InsSpec data i ins sw l3) (s4 : InsSpec data i ins se l4)
     (res : (Tree K × Tree K × Tree K × Tree K) × Bool)
     (h : tryChildren ins nw ne sw se = some res) :
-    WF data res.1.1 (l1 ++ [i].filter fun j => nw.cell.containsPoint (data j)) ∧
-    WF data res.1.2.1 (l2 ++ [i].filter fun j => !nw.cell.containsPoint (data j) && ne.cell.containsPoint (data j)) ∧
-    WF data res.1.2.2.1 (l3 ++ [i].filter fun j => !nw.cell.containsPoint (data j) && !ne.cell.containsPoint (data j) &&
-        sw.cell.containsPoint (data j)) ∧
-    WF data res.1.2.2.2 (l4 ++ [i].filter fun j => !nw.cell.containsPoint (data j) && !ne.cell.containsPoint (data j) &&
-        !sw.cell.containsPoint (data j) && se.cell.containsPoint (data j)) ∧
+    WF data res.1.1 (l1 ++ [data i].filter fun p => nw.cell.containsPoint p) ∧
+    WF data res.1.2.1 (l2 ++ [data i].filter fun p => !nw.cell.containsPoint p && ne.cell.containsPoint p) ∧
+    WF data res.1.2.2.1 (l3 ++ [data i].filter fun p => !nw.cell.containsPoint p && !ne.cell.containsPoint p &&
+        sw.cell.containsPoint p) ∧
+    WF data res.1.2.2.2 (l4 ++ [data i].filter fun p => !nw.cell.containsPoint p && !ne.cell.containsPoint p &&
+        !sw.cell.containsPoint p && se.cell.containsPoint p) ∧
     res.1.1.cell = nw.cell ∧ res.1.2.1.cell = ne.cell ∧ res.1.2.2.1.cell = sw.cell ∧ res.1.2.2.2.cell = se.cell ∧
     res.2 = (nw.cell.containsPoint (data i) || ne.cell.containsPoint (data i) ||
              sw.cell.containsPoint (data i) || se.cell.containsPoint (data i)) := by
@@ -103,12 +104,6 @@ theorem tryChildren_spec (data : Nat → K × K) (i : Nat) (ins : Tree K → Opt
                   obtain ⟨rfl, rfl⟩ := e4
                   refine ⟨?_, ?_, ?_, ?_, ?_, ?_, ?_, ?_, ?_⟩ <;> simp_all
 
-theorem filter_snoc (f : Nat → Bool) (l : List Nat) (i : Nat) :
-    (l ++ [i]).filter f = l.filter f ++ if f i then [i] else [] := by
-  rw [List.filter_append]
-  congr 1
-  by_cases h : f i <;> simp [h]
-
 theorem samePoint_iff (p q : K × K) : samePoint p q = true ↔ p = q := by
   unfold samePoint
   simp only [Bool.and_eq_true, decide_eq_true_eq]
@@ -118,17 +113,74 @@ theorem samePoint_iff (p q : K × K) : samePoint p q = true ↔ p = q := by
 
 @[simp] theorem cell_emptyLeaf (c : Cell K) : (emptyLeaf c).cell = c := rfl
 
-theorem massOK_nil (data : Nat → K × K) (com : K × K) : MassOK data 0 com [] := by
+theorem massOK_nil (com : K × K) : MassOK 0 com ([] : List (K × K)) := by
   simp [MassOK]
 
+/-- `handDown` on well-formed children: the resident's coordinates are appended `n` times to the list of the child that
+    takes them -/
+theorem handDown_spec (data : Nat → K × K) (r : Nat) (ins : Tree K → Option (Tree K × Bool))
+    (hins : ∀ c l, WF data c l → InsSpec data r ins c l) :
+    ∀ (n : Nat) (nw ne sw se : Tree K) (l1 l2 l3 l4 : List (K × K)),
+      WF data nw l1 → WF data ne l2 → WF data sw l3 → WF data se l4 →
+      ∀ res, handDown ins n (nw, ne, sw, se) = some res →
+        WF data res.1 (l1 ++ (List.replicate n (data r)).filter fun p => nw.cell.containsPoint p) ∧
+        WF data res.2.1 (l2 ++ (List.replicate n (data r)).filter fun p =>
+          !nw.cell.containsPoint p && ne.cell.containsPoint p) ∧
+        WF data res.2.2.1 (l3 ++ (List.replicate n (data r)).filter fun p =>
+          !nw.cell.containsPoint p && !ne.cell.containsPoint p && sw.cell.containsPoint p) ∧
+        WF data res.2.2.2 (l4 ++ (List.replicate n (data r)).filter fun p =>
+          !nw.cell.containsPoint p && !ne.cell.containsPoint p && !sw.cell.containsPoint p &&
+            se.cell.containsPoint p) ∧
+        res.1.cell = nw.cell ∧ res.2.1.cell = ne.cell ∧ res.2.2.1.cell = sw.cell ∧ res.2.2.2.cell = se.cell := by
+  intro n
+  induction n with
+  | zero =>
+    intro nw ne sw se l1 l2 l3 l4 w1 w2 w3 w4 res h
+    simp only [handDown, Option.some.injEq] at h
+    subst h
+    simpa using ⟨w1, w2, w3, w4⟩
+  | succ n ih =>
+    intro nw ne sw se l1 l2 l3 l4 w1 w2 w3 w4 res h
+    simp only [handDown] at h
+    cases h1 : tryChildren ins nw ne sw se with
+    | none => simp [h1] at h
+    | some k =>
+      obtain ⟨⟨a, b, c, d⟩, ok⟩ := k
+      simp only [h1] at h
+      have T := tryChildren_spec data r ins nw ne sw se l1 l2 l3 l4 w1 w2 w3 w4
+        (hins _ _ w1) (hins _ _ w2) (hins _ _ w3) (hins _ _ w4) _ h1
+      obtain ⟨a1, a2, a3, a4, c1, c2, c3, c4, -⟩ := T
+      simp only at a1 a2 a3 a4 c1 c2 c3 c4
+      have R := ih a b c d _ _ _ _ a1 a2 a3 a4 res h
+      rw [c1, c2, c3, c4] at R
+      obtain ⟨b1, b2, b3, b4, d1, d2, d3, d4⟩ := R
+      simp only [List.replicate_succ, List.filter_cons]
+      refine ⟨?_, ?_, ?_, ?_, d1, d2, d3, d4⟩
+      · convert b1 using 1
+        by_cases hc : nw.cell.containsPoint (data r) = true <;> simp [hc, List.filter]
+      · convert b2 using 1
+        by_cases hc : (!nw.cell.containsPoint (data r) && ne.cell.containsPoint (data r)) = true <;>
+          simp [hc, List.filter]
+      · convert b3 using 1
+        by_cases hc : (!nw.cell.containsPoint (data r) && !ne.cell.containsPoint (data r) &&
+            sw.cell.containsPoint (data r)) = true <;> simp [hc, List.filter]
+      · convert b4 using 1
+        by_cases hc : (!nw.cell.containsPoint (data r) && !ne.cell.containsPoint (data r) &&
+            !sw.cell.containsPoint (data r) && se.cell.containsPoint (data r)) = true <;> simp [hc, List.filter]
+
+/-- a full leaf's list is its resident's coordinates, `cum` times -/
+theorem leaf_list_replicate (ps : List (K × K)) (q : K × K) (h : ∀ p ∈ ps, p = q) :
+    ps = List.replicate ps.length q := by
+  exact List.eq_replicate_iff.2 ⟨rfl, h⟩
+
 /-- `insert` on a well-formed node: refused (tree unchanged) exactly when the point is outside the closed cell,
-    otherwise accepted and the routed list grows by the index -/
-theorem insert_spec (data : Nat → K × K) : ∀ (fuel : Nat) (t : Tree K) (is : List Nat) (i : Nat),
-    WF data t is → InsSpec data i (fun c => insert data fuel c i) t is := by
+    otherwise accepted and the routed list grows by the point -/
+theorem insert_spec (data : Nat → K × K) : ∀ (fuel : Nat) (t : Tree K) (ps : List (K × K)) (i : Nat),
+    WF data t ps → InsSpec data i (fun c => insert data fuel c i) t ps := by
   intro fuel
   induction fuel with
   | zero =>
-    intro t is i hwf res hres
+    intro t ps i hwf res hres
     cases t with
     | leaf b cum com resd =>
       simp only [Tree.cell]
@@ -146,24 +198,23 @@ theorem insert_spec (data : Nat → K × K) : ∀ (fuel : Nat) (t : Tree K) (is 
           subst hres
           refine ⟨rfl, ?_, rfl⟩
           simp only [WF, List.nil_append]
-          refine ⟨[], rfl, rfl, ?_, ?_⟩
-          · simpa using massOK_upd data 0 com [] i (massOK_nil data com)
-          · intro j hj; simp at hj; subst hj; exact ⟨hc', rfl⟩
+          refine ⟨by simp, rfl, ?_, ?_⟩
+          · simpa using massOK_upd 0 com [] (data i) (massOK_nil com)
+          · intro p hp; simp at hp; subst hp; exact ⟨hc', rfl⟩
         | some r =>
           simp only [WF] at hwf
-          obtain ⟨dups, rfl, hcum, hmass, hall⟩ := hwf
+          obtain ⟨hne, hcum, hmass, hall⟩ := hwf
           by_cases hs : samePoint (data i) (data r) = true
           · simp only [insert, hc', Bool.true_eq_false, if_false, hs, if_true, Option.some.injEq] at hres
             subst hres
             refine ⟨rfl, ?_, rfl⟩
             simp only [WF]
-            refine ⟨dups ++ [i], by simp, by simp [hcum], ?_, ?_⟩
-            · rw [hcum]; exact massOK_upd data _ com _ i (hcum ▸ hmass)
-            · intro j hj
-              simp only [List.cons_append, List.mem_cons, List.mem_append, List.mem_nil_iff, or_false] at hj
-              rcases hj with rfl | hj | rfl
-              · exact hall _ (by simp)
-              · exact hall _ (by simp [hj])
+            refine ⟨by simp, by simp [hcum], ?_, ?_⟩
+            · rw [hcum]; exact massOK_upd _ com _ (data i) (hcum ▸ hmass)
+            · intro p hp
+              simp only [List.mem_append, List.mem_singleton] at hp
+              rcases hp with hp | rfl
+              · exact hall _ hp
               · exact ⟨hc', (samePoint_iff _ _).1 hs⟩
           · have hs' : samePoint (data i) (data r) = false := by simpa using hs
             simp only [insert, hc', Bool.true_eq_false, if_false, hs', Bool.false_eq_true] at hres
@@ -178,7 +229,7 @@ theorem insert_spec (data : Nat → K × K) : ∀ (fuel : Nat) (t : Tree K) (is 
         simp only [insert, hc', Bool.true_eq_false, if_false] at hres
         simp at hres
   | succ fuel ih =>
-    intro t is i hwf res hres
+    intro t ps i hwf res hres
     cases t with
     | leaf b cum com resd =>
       simp only [Tree.cell]
@@ -196,41 +247,43 @@ theorem insert_spec (data : Nat → K × K) : ∀ (fuel : Nat) (t : Tree K) (is 
           subst hres
           refine ⟨rfl, ?_, rfl⟩
           simp only [WF, List.nil_append]
-          refine ⟨[], rfl, rfl, ?_, ?_⟩
-          · simpa using massOK_upd data 0 com [] i (massOK_nil data com)
-          · intro j hj; simp at hj; subst hj; exact ⟨hc', rfl⟩
+          refine ⟨by simp, rfl, ?_, ?_⟩
+          · simpa using massOK_upd 0 com [] (data i) (massOK_nil com)
+          · intro p hp; simp at hp; subst hp; exact ⟨hc', rfl⟩
         | some r =>
           simp only [WF] at hwf
-          obtain ⟨dups, rfl, hcum, hmass, hall⟩ := hwf
+          obtain ⟨hne0, hcum, hmass, hall⟩ := hwf
           by_cases hs : samePoint (data i) (data r) = true
           · simp only [insert, hc', Bool.true_eq_false, if_false, hs, if_true, Option.some.injEq] at hres
             subst hres
             refine ⟨rfl, ?_, rfl⟩
             simp only [WF]
-            refine ⟨dups ++ [i], by simp, by simp [hcum], ?_, ?_⟩
-            · rw [hcum]; exact massOK_upd data _ com _ i (hcum ▸ hmass)
-            · intro j hj
-              simp only [List.cons_append, List.mem_cons, List.mem_append, List.mem_nil_iff, or_false] at hj
-              rcases hj with rfl | hj | rfl
-              · exact hall _ (by simp)
-              · exact hall _ (by simp [hj])
+            refine ⟨by simp, by simp [hcum], ?_, ?_⟩
+            · rw [hcum]; exact massOK_upd _ com _ (data i) (hcum ▸ hmass)
+            · intro p hp
+              simp only [List.mem_append, List.mem_singleton] at hp
+              rcases hp with hp | rfl
+              · exact hall _ hp
               · exact ⟨hc', (samePoint_iff _ _).1 hs⟩
           · -- subdivide()
             have hne : data i ≠ data r := fun h => hs ((samePoint_iff _ _).2 h)
             have hs' : samePoint (data i) (data r) = false := by simpa using hs
             simp only [insert, hc', Bool.true_eq_false, if_false, hs', Bool.false_eq_true] at hres
-            -- the resident goes down first
-            cases h1 : tryChildren (fun c => insert data fuel c r) (emptyLeaf (cellNW b)) (emptyLeaf (cellNE b))
-                (emptyLeaf (cellSW b)) (emptyLeaf (cellSE b)) with
+            -- the resident goes down first, `multiplicity = cum` times
+            cases h1 : handDown (fun c => insert data fuel c r) cum
+                (emptyLeaf (cellNW b), emptyLeaf (cellNE b), emptyLeaf (cellSW b), emptyLeaf (cellSE b)) with
             | none => simp [h1] at hres
             | some k1 =>
-              obtain ⟨⟨nw, ne, sw, se⟩, ok1⟩ := k1
-              have T1 := tryChildren_spec data r (fun c => insert data fuel c r) _ _ _ _ [] [] [] []
-                (WF_emptyLeaf data _) (WF_emptyLeaf data _) (WF_emptyLeaf data _) (WF_emptyLeaf data _)
-                (ih _ _ r (WF_emptyLeaf data _)) (ih _ _ r (WF_emptyLeaf data _))
-                (ih _ _ r (WF_emptyLeaf data _)) (ih _ _ r (WF_emptyLeaf data _)) _ h1
+              obtain ⟨nw, ne, sw, se⟩ := k1
+              have T1 := handDown_spec data r (fun c => insert data fuel c r) (fun c l w => ih c l r w) cum
+                _ _ _ _ [] [] [] [] (WF_emptyLeaf data _) (WF_emptyLeaf data _) (WF_emptyLeaf data _)
+                (WF_emptyLeaf data _) _ h1
               simp only [cell_emptyLeaf, List.nil_append] at T1
-              obtain ⟨a1, a2, a3, a4, c1, c2, c3, c4, -⟩ := T1
+              obtain ⟨a1, a2, a3, a4, c1, c2, c3, c4⟩ := T1
+              -- the leaf's list is `cum` copies of the resident's coordinates
+              have hrep : ps = List.replicate cum (data r) := by
+                rw [hcum]; exact leaf_list_replicate ps (data r) fun p hp => (hall p hp).2
+              rw [← hrep] at a1 a2 a3 a4
               simp only [h1] at hres
               cases h2 : tryChildren (fun c => insert data fuel c i) nw ne sw se with
               | none => simp [h2] at hres
@@ -248,20 +301,20 @@ theorem insert_spec (data : Nat → K × K) : ∀ (fuel : Nat) (t : Tree K) (is 
                   rw [hok]
                   rcases hcov with h | h | h | h <;> simp [h]
                 · simp only [WF]
-                  refine ⟨r, dups, [i], by simp, by simp [hcum], ?_, ?_, ?_, ⟨i, by simp, hne⟩,
+                  obtain ⟨q, hq⟩ := List.exists_mem_of_ne_nil ps hne0
+                  refine ⟨by simp [hcum], ?_, ?_, ⟨data i, by simp, q, by simp [hq], ?_⟩,
                     d1, d2, d3, d4, ?_, ?_, ?_, ?_⟩
-                  · rw [hcum]; exact massOK_upd data _ com _ i (hcum ▸ hmass)
-                  · intro j hj
-                    simp only [List.cons_append, List.mem_cons, List.mem_append, List.mem_nil_iff, or_false] at hj
-                    rcases hj with rfl | hj | rfl
-                    · exact (hall _ (by simp)).1
-                    · exact (hall _ (by simp [hj])).1
+                  · rw [hcum]; exact massOK_upd _ com _ (data i) (hcum ▸ hmass)
+                  · intro p hp
+                    simp only [List.mem_append, List.mem_singleton] at hp
+                    rcases hp with hp | rfl
+                    · exact (hall _ hp).1
                     · exact hc'
-                  · intro d hd; exact (hall d (by simp [hd])).2
-                  · show WF data nw' (([r] ++ [i]).filter _); rw [List.filter_append]; exact b1
-                  · show WF data ne' (([r] ++ [i]).filter _); rw [List.filter_append]; exact b2
-                  · show WF data sw' (([r] ++ [i]).filter _); rw [List.filter_append]; exact b3
-                  · show WF data se' (([r] ++ [i]).filter _); rw [List.filter_append]; exact b4
+                  · rw [(hall q hq).2]; exact hne
+                  · rw [List.filter_append]; exact b1
+                  · rw [List.filter_append]; exact b2
+                  · rw [List.filter_append]; exact b3
+                  · rw [List.filter_append]; exact b4
     | node b cum com nw ne sw se =>
       simp only [Tree.cell]
       by_cases hc : b.containsPoint (data i) = false
@@ -271,7 +324,7 @@ theorem insert_spec (data : Nat → K × K) : ∀ (fuel : Nat) (t : Tree K) (is 
       · have hc' : b.containsPoint (data i) = true := by simpa using hc
         refine ⟨fun h => absurd h hc, fun _ => ?_⟩
         simp only [WF] at hwf
-        obtain ⟨r, dups, rest, rfl, hcum, hmass, hall, hdups, hex, e1, e2, e3, e4, w1, w2, w3, w4⟩ := hwf
+        obtain ⟨hcum, hmass, hall, hex, e1, e2, e3, e4, w1, w2, w3, w4⟩ := hwf
         simp only [insert, hc', Bool.true_eq_false, if_false] at hres
         cases h2 : tryChildren (fun c => insert data fuel c i) nw ne sw se with
         | none => simp [h2] at hres
@@ -289,20 +342,18 @@ theorem insert_spec (data : Nat → K × K) : ∀ (fuel : Nat) (t : Tree K) (is 
             rw [hok]
             rcases hcov with h | h | h | h <;> simp [h]
           · simp only [WF]
-            obtain ⟨j, hj, hjne⟩ := hex
-            refine ⟨r, dups, rest ++ [i], by simp, by simp [hcum]; omega, ?_, ?_, hdups, ⟨j, by simp [hj], hjne⟩,
+            obtain ⟨p, hp, q, hq, hpq⟩ := hex
+            refine ⟨by simp [hcum], ?_, ?_, ⟨p, by simp [hp], q, by simp [hq], hpq⟩,
               d1, d2, d3, d4, ?_, ?_, ?_, ?_⟩
-            · rw [hcum]; exact massOK_upd data _ com _ i (hcum ▸ hmass)
-            · intro k hk
-              simp only [List.cons_append, List.mem_cons, List.mem_append, List.mem_nil_iff, or_false] at hk
-              rcases hk with rfl | (hk | hk) | rfl
-              · exact hall _ (by simp)
-              · exact hall _ (by simp [hk])
-              · exact hall _ (by simp [hk])
+            · rw [hcum]; exact massOK_upd _ com _ (data i) (hcum ▸ hmass)
+            · intro x hx
+              simp only [List.mem_append, List.mem_singleton] at hx
+              rcases hx with hx | rfl
+              · exact hall _ hx
               · exact hc'
-            · rw [← List.cons_append, List.filter_append]; exact b1
-            · rw [← List.cons_append, List.filter_append]; exact b2
-            · rw [← List.cons_append, List.filter_append]; exact b3
-            · rw [← List.cons_append, List.filter_append]; exact b4
+            · rw [List.filter_append]; exact b1
+            · rw [List.filter_append]; exact b2
+            · rw [List.filter_append]; exact b3
+            · rw [List.filter_append]; exact b4
 
 end TapkeeVerif.QuadTree
